@@ -696,46 +696,58 @@ func scripts(thorough bool) []*script {
 	seq := func(name string, maxMsg int, have bool, depth, ncid int, ops string, b int) {
 		add(&script{name: name, maxMsg: maxMsg, have: have, seqDepth: depth, seqCids: ncid, seqOps: strings.Fields(ops)}, b)
 	}
-	// --- E1 side: every operation sequence of one producer, default schedule (bound 0); SL lets the run loop send
+	// --- E1 side: every operation sequence of one producer, default schedule (bound 0: only the cost-free
+	// choices - which thread continues when the running one blocks, timer ties - are branched); SL lets the
+	// run loop send, LG (31 s) lets the periodic rebroadcast refresh, RB is RebroadcastNow
 	seq("seq-1cid-d5", bigMsg, true, 5, 1, "WB WH BH CA SL", 0)
 	seq("seq-1cid-d4-rb", bigMsg, true, 4, 1, "WB BH CA RB SL", 0)
 	seq("seq-2cid-d4", bigMsg, true, 4, 2, "WB BH CA SL", 0)
 	seq("seq-2cid-d3-onemsg", oneMsg, true, 3, 2, "WB WH BH CA SL", 0)
 	seq("seq-2cid-d3-nohave", bigMsg, false, 3, 2, "WB WH BH CA SL", 0)
 	if thorough {
-		seq("seq-1cid-d6-long", bigMsg, true, 6, 1, "WB WH BH CA RB SL LG", 0)
-		seq("seq-2cid-d5", bigMsg, true, 5, 2, "WB WH BH CA SL", 0)
-		seq("seq-2cid-d5-onemsg", oneMsg, true, 5, 2, "WB WH BH CA SL", 0)
-		seq("seq-2cid-d4-twomsg", twoMsg, true, 4, 2, "WB WH BH CA SL RB", 0)
-		seq("seq-2cid-d5-nohave", bigMsg, false, 5, 2, "WB WH BH CA SL", 0)
-		seq("seq-1cid-d3-b1", bigMsg, true, 3, 1, "WB WH BH CA RB SL", 1)
+		seq("seq-1cid-d6", bigMsg, true, 6, 1, "WB WH BH CA SL", 0)
+		seq("seq-1cid-d5-long", bigMsg, true, 5, 1, "WB WH BH CA SL LG", 0)
+		seq("seq-2cid-d5", bigMsg, true, 5, 2, "WB BH CA SL", 0)
+		seq("seq-2cid-d5-onemsg", oneMsg, true, 5, 2, "WB BH CA SL", 0)
+		seq("seq-2cid-d4-onemsg", oneMsg, true, 4, 2, "WB WH BH CA SL", 0)
+		seq("seq-2cid-d4-twomsg", twoMsg, true, 4, 2, "WB WH BH CA SL", 0)
+		seq("seq-2cid-d4-nohave", bigMsg, false, 4, 2, "WB WH BH CA SL", 0)
+		seq("seq-1cid-d4-resp-long", bigMsg, true, 4, 1, "WB BH CA RS SL LG", 0)
+		seq("seq-3cid-d4", twoMsg, true, 4, 3, "WB BH CA SL", 0)
+		seq("seq-1cid-d3-b1", bigMsg, true, 3, 1, "WB BH CA RB SL", 1)
 	}
-	// --- E3: hand-picked races, full bound
+	// --- E3: hand-picked races
+	lo := 1 // quick: small scenarios at the full bound 2, the rest at 1; thorough: 3 / 2
+	if thorough {
+		lo = 2
+	}
 	add(mk("cancel-vs-rebroadcastnow", bigMsg, true, "WB0 SL50ms", "RB", "CA0"), bound)
 	add(mk("cancel-vs-timed-rebroadcast", bigMsg, true, "WB0", "SL30s CA0"), bound)
 	add(mk("want-vs-cancel", bigMsg, true, "", "WB0", "CA0"), bound)
-	add(mk("sent-cancel-rewant-vs-cancel", bigMsg, true, "WB0 SL50ms", "CA0 WB0", "CA0"), bound-1)
 	add(mk("have-upgrade-in-flight", bigMsg, true, "", "WH0", "WB0"), bound)
 	add(mk("both-lists-cancel-rewant", bigMsg, true, "WB0 BH0", "CA0 BH0"), bound)
 	add(mk("both-lists-cancel-rewant-peer", bigMsg, true, "WB0 BH0", "CA0 WB0"), bound)
-	add(mk("two-cids-one-entry-messages", oneMsg, true, "", "W2", "C2"), bound)
-	add(mk("two-cids-two-entry-messages", twoMsg, true, "W2 BH2", "C2", "WB1"), bound-1)
-	add(mk("nohave-mixed", bigMsg, false, "", "WH0 BH1", "CA0 WB1"), bound-1)
-	add(mk("three-producers", bigMsg, true, "", "WB0", "CA0", "BH0"), bound-1)
-	f := add(mk("send-failure", bigMsg, true, "", "WB0 CA0", "WH1"), bound-1)
+	add(mk("sent-cancel-rewant-vs-cancel", bigMsg, true, "WB0 SL50ms", "CA0 WB0", "CA0"), lo)
+	add(mk("two-cids-one-entry-messages", oneMsg, true, "", "W2", "C2"), lo)
+	add(mk("two-cids-two-entry-messages", twoMsg, true, "W2 BH2", "C2", "WB1"), lo)
+	add(mk("nohave-mixed", bigMsg, false, "", "WH0 BH1", "CA0 WB1"), lo)
+	add(mk("three-producers", bigMsg, true, "", "WB0", "CA0", "BH0"), lo)
+	f := add(mk("send-failure", bigMsg, true, "", "WB0 CA0", "WH1"), lo)
 	f.fail = true
-	// --- E3: systematic pairs, one producer call against two producer calls on the same CID
+	// --- E3: systematic pairs on one CID: every one-call producer against every two-call producer, bound 1
 	pair := func(name string, maxMsg int, have bool, pre string, b int) {
 		add(mk(name, maxMsg, have, pre, "WB0|WH0|BH0|CA0|RB", "WB0|WH0|BH0|CA0 WB0|WH0|BH0|CA0"), b)
 	}
-	pair("pairs-both-pending", bigMsg, true, "WB0 BH0", 1)
-	if thorough {
+	if !thorough {
+		add(mk("pairs-both-pending-q", bigMsg, true, "WB0 BH0", "WB0|BH0|CA0|RB", "WB0|BH0|CA0 WB0|BH0|CA0"), 1)
+	} else {
+		pair("pairs-both-pending", bigMsg, true, "WB0 BH0", 1)
 		pair("pairs-empty", bigMsg, true, "", 1)
 		pair("pairs-block-sent", bigMsg, true, "WB0 SL50ms", 1)
 		pair("pairs-both-sent", bigMsg, true, "WH0 BH0 SL50ms", 1)
 		pair("pairs-cancel-pending", bigMsg, true, "WB0 SL50ms CA0", 1)
 		pair("pairs-nohave-both-pending", bigMsg, false, "WH0 BH0", 1)
-		pair("pairs-empty-b2", bigMsg, true, "", 2)
+		add(mk("pairs-both-pending-b2", bigMsg, true, "WB0 BH0", "WB0|BH0|CA0|RB", "WB0|BH0|CA0 WB0|BH0|CA0"), 2)
 	}
 	return out
 }
@@ -759,7 +771,7 @@ func scenarios(thorough bool) []*vexp.Scenario {
 
 func main() {
 	eng.WorkerMain = func() {
-		vexp.Register(scenarios(true)...)
+		vexp.Register(append(scenarios(false), scenarios(true)...)...)
 		eng.WorkerMain()
 	}
 	eng.Main("C35", "model_checking", func(r *eng.Run) {
@@ -769,5 +781,5 @@ func main() {
 		r.Assume("overlapping producer calls may linearise in either order; a failed SendMsg ends the peer session (no convergence demanded afterwards)")
 		r.Assume("the receiver applies messages in send order: cancel removes, want-block upgrades want-have, want-have never downgrades, Full replaces")
 		vexp.Explore(r, scs, vexp.Options{Bound: eng.Pick(r, 2, 3)})
-	}, func(r *eng.Run, raw json.RawMessage) { vexp.Replay(r, scenarios(true), raw) })
+	}, func(r *eng.Run, raw json.RawMessage) { vexp.Replay(r, append(scenarios(false), scenarios(true)...), raw) })
 }
